@@ -30,6 +30,8 @@ def worker_init():
     rt.patch_asyncio_module(A)
     _A = A
     FILES = pool.aiuti_files()
+    global _INTERESTING
+    _INTERESTING = {FILES['asyncio']: rt.interesting_lines(FILES['asyncio'])}
 
 
 class HExc(Exception):
@@ -67,6 +69,14 @@ class MM(collections.abc.MutableMapping):
         return len(self.d)
 
 
+class Tiny(MM):
+    """A caller-supplied mapping that keeps only the most recently stored key (evicts on insert)."""
+    def __setitem__(self, k, v):
+        if k not in self.d:
+            self.d.clear()
+        self.d[k] = v
+
+
 _cur_call = contextvars.ContextVar('cur_call', default=0)
 
 
@@ -78,6 +88,7 @@ def execute(sc):
     ctl = rt.install(rt.Ctl(rt.make_strategy(sc.get('strategy', {'kind': 'random', 'seed': 0})),
                             trace_files=[FILES['asyncio']] if trace else (),
                             max_steps=sc.get('max_steps', 30000)))
+    ctl.interesting = _INTERESTING
     asyncio.set_event_loop_policy(rt.VPolicy())
     fspec = sc.get('func', {})
     inv_counter = [0]
@@ -113,6 +124,8 @@ def execute(sc):
         wrapped = A.threadsafe_async_cache(user_func)
     elif mp == 'mm':
         wrapped = A.threadsafe_async_cache(user_func, cache=MM())
+    elif mp == 'tiny':
+        wrapped = A.threadsafe_async_cache(user_func, cache=Tiny())
     elif mp == 'lru':
         from lru import LRU
         wrapped = A.threadsafe_async_cache(cache=LRU(64))(user_func)
